@@ -10,6 +10,13 @@ RULE = ("TLC enumerates every formula in Polish notation with <= MaxOps connecti
 ASSUMPTIONS = ["rows are identified by './'+relative path"]
 
 
+def mech(tier, seed):
+    # Mech => Prop for the parser: the AST Parser!ParseWhere builds from the rendered text of every formula has, under every
+    # truth assignment of the atoms, the value of the formula (Lexer and Parser models composed; NOT folding, De Morgan, brackets)
+    return [dict(module="MC_ParserMech", cfg="MC_ParserMech_q" if tier == "quick" else "MC_ParserMech_t",
+                 workers=8 if tier == "quick" else 12, actions=[], coverage=False)]
+
+
 def generators(tier, seed):
     if tier == "quick":
         return [dict(module="MC_C03", cfg="MC_C03_q2", workers=4),
